@@ -81,11 +81,12 @@ package postprocessor
 //@   checks idx slice div assert extnil
 //@   property C06
 //@   requires item != nil && item.url != nil
-//@   modifies models.URL::*, elem::*models.URL, models.Item::base, elem::string
+//@   modifies models.URL::*, elem::*models.URL, models.Item::base, elem::string, xmlLeft
 //@   loop for invariant [outs] outsSep(assets, outlinks) && item.url.Hops == old(item.url.Hops)
 //@   loop range invariant [outs] outsSep(assets, outlinks) && item.url.Hops == old(item.url.Hops)
 //@   loop range#2 invariant [page-hops] item.url.Hops == old(item.url.Hops)
 //@   ensures [page-hops-kept] item.url.Hops == old(item.url.Hops) // the page's own hop count is not changed by extracting its assets
+//@   loop for variant [filter-ends] @C10 len(assets) - i // C10: no server-controlled input makes the crawler spin forever in post-processing (each round of the filter loop deletes one asset or moves on to the next)
 //@   loop for invariant [filtered] 0 <= i && i <= len(assets) && forall(j, 0, i, assets[j] != nil) && item.url == old(item.url) && item.url != nil
 //@   loop range invariant [asset-hops] -1 <= rangeindex && rangeindex < len(assets) && forall(j, 0, len(assets), assets[j] != nil) && forall(j, 0, rangeindex+1, assets[j].Hops == item.url.Hops) && item.url == old(item.url) && item.url != nil
 //@   loop range#2 invariant [keep] item.url == old(item.url) && item.url != nil && (len(outlinks) == 0 ==> forall(j, 0, len(assets), assets[j] != nil && assets[j].Hops == item.url.Hops))
@@ -115,7 +116,7 @@ package postprocessor
 //@   property C06
 //@   mode paths
 //@   requires item != nil && item.url != nil
-//@   modifies models.URL::*, models.Item::base
+//@   modifies models.URL::*, models.Item::base, xmlLeft
 //@   loop range let h0 = item.url.Hops
 //@   loop range invariant [hops] item.url == old(item.url) && item.url != nil && item.url.Hops == h0 && -1 <= rangeindex && forall(j, 0, len(outlinks), outlinks[j] == nil || fresh(outlinks[j])) && forall(j, 0, rangeindex+1, outlinks[j].Hops == h0 + 1)
 //@   loop range invariant [others-kept] forall(u, *models.URL, u != nil && !fresh(u) ==> u.Hops == old(u.Hops) && u.Redirects == old(u.Redirects))
